@@ -95,3 +95,15 @@ check("C14", "model_checking",
       "per design unchanged for earlier designs, forward-difference gradient as an exact integer identity.",
       "trusted: TLC; integer lattice objective (exact sums); call attribution by exact vectors with disjoint neighbourhoods",
       "TLC model with named deviation + TLC trace validation of every batch of real evaluator runs", "DESIGN.md 5/C14")
+
+check("C16", "model_checking",
+      "BenchOps.tla is an exact rational transcription of the DTLZ1-4 families on a lattice (distance variables in quarter units where g is "
+      "rational; position variables at 0, 1 and Pythagorean angles with rational sine and cosine, dyadic for DTLZ1), of ZDT1's g and of the "
+      "bi-objective problem; Benchmarks.tla lets TLC check over the complete lattice (m = 2..4, small k) that this definition satisfies "
+      "sum f = (1+g)/2, sum f^2 = (1+g)^2, non-negativity and the corner structure. Sampled lattice points for m = 2..4 with k = 10 "
+      "(DTLZ1 also k = 1, 2, 5), Python floats and numpy scalars, are evaluated by the real classes; BenchTrace compares every objective "
+      "with the model's exact rational (reduced-fraction equality, no tolerance beyond 2e-11 projection), ZDT1 exactly where the root is "
+      "rational and by a square-root-free fixed-point identity elsewhere. Right level for an index-structure property: a wrong variable "
+      "index, slice or constant changes an exact rational somewhere on the lattice.",
+      "trusted: TLC; nearest-rational projection (denominator <= 80000, 2e-11); libm accuracy at the lattice angles; points between lattice "
+      "points are not examined", "TLC-checked exact lattice model + TLC validation of real evaluations on the lattice", "DESIGN.md 5/C16")
